@@ -39,7 +39,10 @@ NamedLikeSelf == {"assocnamed", "vecassocnamed"}
 SelfRef == {"selfbox", "selfvec", "selfkw", "selfmix", "selfassoc"}
 Skipped == {"skipT", "skipNoInfoG", "skipNoInfo"}
 MentionsP == Templates \ {"selfbox", "selfvec", "selfkw", "skipNoInfo", "compactc", "concrete"}
-Modifiers == {"lifetime", "lifetime2", "const", "default", "inline", "where", "skip", "custom", "enum", "tuple"}
+\* "splitattr": the decisive codec attribute of a member is the SECOND of two #[codec(..)] attributes on the item
+\* (#[codec(encoded_as = ..)] #[codec(skip)] on a field, #[codec(index = ..)] #[codec(skip)] on a variant): spelling only,
+\* the where-clause must not depend on it
+Modifiers == {"lifetime", "lifetime2", "const", "default", "inline", "where", "skip", "custom", "enum", "tuple", "splitattr"}
 Params == {"T", "U"}
 VARIABLE d
 \* d = [np |-> 1..2, fields |-> Seq([t, p]), mods |-> SUBSET Modifiers]
@@ -51,7 +54,7 @@ FieldsOf(np) == LET ps == IF np = 1 THEN {"T"} ELSE Params
                        <<[t |-> "compactassoc", p |-> "T"], [t |-> "assoc", p |-> "T"]>> }       \* the same generic type plain and compact
                 \cup (IF TwoFields THEN {<<f, g>> : f \in {[t |-> t, p |-> "T"] : t \in Templates}, g \in {[t |-> t, p |-> p] : t \in {"direct", "phantom", "assoc", "selfassoc", "skipNoInfoG", "vecassoc", "compactp", "compactassoc"}, p \in ps}} ELSE {})
 \* always-covered pairs (interactions of the attribute paths with lifetimes and with skipping)
-CorePairs == {{"custom", "lifetime"}, {"custom", "lifetime2"}, {"skip", "custom"}, {"skip", "enum"}, {"skip", "where"}, {"skip", "inline"}, {"skip", "lifetime"}}
+CorePairs == {{"custom", "lifetime"}, {"custom", "lifetime2"}, {"skip", "custom"}, {"skip", "enum"}, {"skip", "where"}, {"skip", "inline"}, {"skip", "lifetime"}, {"splitattr", "enum"}, {"splitattr", "tuple"}, {"splitattr", "custom"}}
 ModSets == {M \in SUBSET Modifiers : (Cardinality(M) <= (IF Pairwise THEN 2 ELSE 1) \/ M \in CorePairs) /\ ~({"lifetime", "lifetime2"} \subseteq M) /\ ~({"enum", "tuple"} \subseteq M)
                                       /\ ~({"const", "default"} \subseteq M)}
 Init == d \in {[np |-> np, fields |-> fs, mods |-> M] : np \in 1..2, fs \in FieldsOf(1) \cup FieldsOf(2), M \in ModSets}
